@@ -48,6 +48,11 @@ def run(ctx):
             t = line.split(); xv = int(t[2]) / 2.0**int(t[3]) if len(t) >= 4 else None; ctx.count(('X', line))
             if xv is None or abs(xv - 0.012467) > 1e-15: ctx.report('set-field-ext_amax', 'lambda=%s: alpha_max of the extracted LWE parameters is %r, the sets document 0.012467 ("max standard deviation for a 1/4 message space")' % (t[1], xv), {'observed': line})
             continue
+        if line.startswith('B '):
+            t = line.split(); ctx.count(('B', line))
+            if t[2:4] != ['ABORT', '6']:
+                ctx.report('selector-rejects-without-abort', 'lambda=%s, requested by a caller that ignores the returned pointer: the process was not aborted (%s) - the call was dropped or did not reject' % (t[1], ' '.join(t[2:4])), {'lambda': int(t[1]), 'observed': line})
+            continue
         lam, d = parse(line)
         hist = line.split()[:3] if line.startswith(('H ', 'T ')) else None
         ctx.count((lam, tuple(hist or []))); seen.add(lam)
